@@ -3,6 +3,7 @@ from common import coq_options, coq_string, run_batch, run_driver
 import sink
 
 ID = "C07"
+ENV_RERUN = 40          # cases repeated from a cargo build-script environment (lib/runner.py with_build_env)
 TABLES = ["vertex_format"]      # leaf tables compared exhaustively through the hooks (coq/Check/Tables.v)
 REQUIRES = ["Agree", "C07Spec", "C07Premise", "Truth"]
 THEOREM_REQUIRES = ["C07"]
